@@ -327,3 +327,105 @@ func (m *zzModel) handlerID(p, method string) int {
 	}
 	return 0
 }
+
+// ---- dispatch oracle shared by C02/C03/C17/C19: the documented resolution
+// procedure (refResolve) over the model's live patterns ----
+
+// zzExpectDispatch asserts that the observed outcome for (path, method) is one the
+// documented procedure admits on the model's live table.
+func zzExpectDispatch(tag string, m *zzModel, path, method string, o *zzObs) {
+	cs := make([]rcand, len(m.routes))
+	for i := range m.routes {
+		cs[i] = rcand{i + 1, m.routes[i].p}
+	}
+	adm := refResolve(cs, path, nil)
+	if !o.node {
+		zzv.Assert(o.id == id404, tag+":no-node-but-not-the-404-handler")
+		zzv.Assert(len(adm) == 0, tag+":404-although-a-live-route-matches")
+		return
+	}
+	ok := false
+	for _, a := range adm {
+		if m.routes[a.id-1].p == o.pattern && sameOutcome(routcome{a.id, a.ps}, a.id, o.params) {
+			ok = true
+		}
+	}
+	zzv.Assert(ok, tag+":outcome-not-admissible-on-the-live-table")
+	want := m.handlerID(o.pattern, method)
+	if want == 0 {
+		want = id405
+		if method == "OPTIONS" {
+			want = idOpt
+		}
+	}
+	zzv.Assert(o.id == want, tag+":wrong-handler-for-method")
+}
+
+// zzWitness builds a request path for a pattern from simple values: digits for
+// every parameter (accepted by \d+, digit, word, \w*, named), 'b' for [a-c]+/[a-z]+.
+func zzWitness(p string) string {
+	s := ""
+	for _, t := range zzTokenize(p) {
+		switch {
+		case !t.param:
+			s += t.lit
+		case t.rule == "[a-c]+" || t.rule == "[a-z]+":
+			s += "b"
+		default:
+			s += "7"
+		}
+	}
+	return s
+}
+
+func zzSortedStrings(in []string) []string {
+	out := append([]string{}, in...)
+	for i := 1; i < len(out); i++ {
+		for j := i; j > 0 && out[j] < out[j-1]; j-- {
+			out[j], out[j-1] = out[j-1], out[j]
+		}
+	}
+	return out
+}
+
+func zzJoin(in []string) string {
+	s := ""
+	for i, x := range in {
+		if i > 0 {
+			s += ", "
+		}
+		s += x
+	}
+	return s
+}
+
+// zzAllowSet: the Allow set the documentation prescribes for a live route.
+func zzAllowSet(ms []string, trace bool) []string {
+	out := append([]string{}, ms...)
+	for _, x := range ms {
+		if x == "GET" {
+			out = append(out, "HEAD")
+		}
+	}
+	out = append(out, "OPTIONS")
+	if trace {
+		out = append(out, "TRACE")
+	}
+	return zzSortedStrings(out)
+}
+
+// zzCheckRoutes asserts Routes() == model (patterns and method sets).
+func zzCheckRoutes(tag string, r *Router[*hnd], m *zzModel, trace bool) {
+	rs := r.Routes()
+	star := []string{"OPTIONS"}
+	if trace {
+		star = append(star, "TRACE")
+	}
+	zzv.Assert(zzJoin(rs["*"]) == zzJoin(star), tag+":routes-star")
+	zzv.Assert(len(rs) == len(m.routes)+1, tag+":routes-lists-dead-or-misses-live-patterns")
+	for _, rt := range m.routes {
+		got, ok := rs[rt.p]
+		zzv.Assert(ok, tag+":routes-misses-live-pattern")
+		zzv.Assert(zzJoin(got) == zzJoin(zzAllowSet(rt.ms, trace)), tag+":routes-method-set")
+	}
+}
